@@ -19,12 +19,18 @@ ARCHETYPES = [
     ("g", "#[repr(i8)] pub enum E { A = 3, B = 4, C = 5, D = 6 }"),
     ("hs", "#[repr(i8)] pub enum E { A = -10, B = -5, C = -4, D = 3 }"),
     ("hl", "#[repr(u64)] pub enum E { A = 1, B = 2, C = 9 }"),
+    # many runs (20 runs of two): code paths chosen by the NUMBER of runs (round 6: three seeds generated a search over the run
+    # table for > 8 resp. >= 16 runs only) get their own classes
+    ("hm", "#[repr(i8)] pub enum E { %s }" % ", ".join("%s = %d" % ("ABCD"[i] if i < 4 else "V%d" % i, v)
+                                                      for i, v in enumerate(x for x in range(-30, 30) if x % 3 != 0))),
 ]
 
 
 def klass(decl):
     if decl.gapless:
         return "g"
+    if len(decl.runs()) > 8:
+        return "hm"
     return "hs" if len(decl.variants) * SIZE_GUESS[decl.repr] <= 8 else "hl"
 
 
@@ -109,7 +115,8 @@ def c09(tier):
     res.extra["cover_sizes"] = {k: len(v) for k, v in covers.items()}
     if tier == "quick":
         decls = (family_F("i8", 2, 2, 2) + family_F("i64", 2, 1, 2) + family_F("u16", 1, 2, 1) + enums.family_L("i8") + enums.family_M("i8", 2)
-                 + enums.family_D("i8", 6, "zero", min_n=4))
+                 + enums.family_D("i8", 6, "zero", min_n=4) + enums.family_R("i8")[1:2]
+                 + [enums.make_decl("i16", [x for x in range(-30, 30) if x % 3 != 0][::-1], salt=4)])
         bounds = dict(x1_depth=2, x2_extra=1, x2_cap=5, range_x1_depth=1, range_x2_extra=1)
         kmax = 2
     else:
@@ -132,6 +139,8 @@ def c09(tier):
             b.update(x1_depth=1, x2_extra=0, x2_cap=2, range_x1_depth=1, range_x2_extra=0, range_pair_step=2003)
         if len(d.variants) > 6 and not big:
             b.update(range_x1_depth=1)
+        if 16 < len(d.variants) <= 64:
+            b.update(x1_depth=1, x2_extra=0, x2_cap=3, range_x1_depth=1, range_x2_extra=0, range_pair_step=41)
         for j, ctext in enumerate(sorted(covers[klass(d)])):
             subs.append(Subj("c%05d_%03d" % (i, j), d, e1.cfg_from_text(ctext), bounds=b, weight=60 if big else None,
                              sweep_full=False))
@@ -454,7 +463,7 @@ def c19(tier):
                 for c in cl:
                     cfg = e1.cfg_from_text(c["rep"], zz=False)
                     m = re.search(r"repr\((\w+)\)", arch)
-                    vals = {"g": [3, 4, 5, 6], "hs": [-10, -5, -4, 3], "hl": [1, 2, 9]}[k]
+                    vals = {"g": [3, 4, 5, 6], "hs": [-10, -5, -4, 3], "hl": [1, 2, 9], "hm": [x for x in range(-30, 30) if x % 3 != 0]}[k]
                     d = make_decl(m.group(1), vals, renames=False)
                     v = e2.compile_one(probe_source(d, cfg))
                     res.validated += 1
@@ -472,12 +481,13 @@ def c19(tier):
                                       {"signatures": texts[:4], "configs": [x["rep"] for x in cl][:4]},
                                       {"repro.rs": "// signature of %s differs between configurations:\n// %s\nfn main() {}\n" % (item, texts[:2])})
     for (k, item), cl in sig.items():
-        if k == "g" and ("hs", item) in sig and cl and sig[("hs", item)]:
-            a, b = cl[0]["text"], sig[("hs", item)][0]["text"]
-            res.transitions += 1
-            if a != b:
-                res.violation({"kind": "signature-depends-on-shape", "item": item}, {"gapless": a, "holes": b},
-                              {"repro.rs": "// signature of %s: gapless `%s` vs with holes `%s`\nfn main() {}\n" % (item, a, b)})
+        for other in ("hs", "hm"):      # the archetypes that share g's repr
+            if k == "g" and (other, item) in sig and cl and sig[(other, item)]:
+                a, b = cl[0]["text"], sig[(other, item)][0]["text"]
+                res.transitions += 1
+                if a != b:
+                    res.violation({"kind": "signature-depends-on-shape", "item": item, "shape": other}, {"gapless": a, "holes": b},
+                                  {"repro.rs": "// signature of %s: gapless `%s` vs with holes (%s) `%s`\nfn main() {}\n" % (item, a, other, b)})
     # (2) probes on the real toolchain
     cases = []
     reprs = enums.ALL_REPRS
